@@ -2,7 +2,8 @@
    Property theorems only: each is closed by [exact] of a lemma from Proofs/, with Print Assumptions beneath.
    [mem set n] is the mathematical membership of n in the set the word array denotes (bit n mod 64 of word n / 64). *)
 From Coq Require Import List NArith ZArith Bool Sorted.
-From V Require Import Lib.Enc Model.Bits Proofs.BitsBasic Proofs.BitsIter Proofs.BitsBulk Proofs.BitsRefine.
+From V Require Import Lib.Enc Model.Bits Proofs.BitsBasic Proofs.BitsIter Proofs.BitsBulk Proofs.BitsRefine Proofs.BitsEntry.
+From V Require Run.C16.
 Import ListNotations.
 Local Open Scope N_scope.
 
@@ -76,3 +77,8 @@ Theorem c16_bits_refines_set : forall (k : kind) (ops : list op),
   run k (empty, empty) ops = s_run k (s_empty, s_empty) ops.
 Proof. exact bits_refines_set. Qed.
 Print Assumptions c16_bits_refines_set.
+
+(* ... and therefore on every case of the correspondence run, whatever its integers: model output (sub 0) = specification output (sub 1) *)
+Theorem c16_entry_model_eq_spec : forall args, Run.C16.entry 0 args = Run.C16.entry 1 args.
+Proof. exact c16_entry_eq. Qed.
+Print Assumptions c16_entry_model_eq_spec.
